@@ -111,7 +111,8 @@ def one(asg, name, where, index=None, count=None):
 
 
 def parse(rel: str) -> ast.AST:
-    return ast.parse(open(os.path.join(REPO, "torchsnapshot", rel)).read())
+    from translator.pyast import normalise
+    return normalise(ast.parse(open(os.path.join(REPO, "torchsnapshot", rel)).read()))
 
 
 def generate() -> dict[str, str]:
